@@ -264,8 +264,9 @@ def envelope_formats(ctx):
     """Literal struct formats used by frame.frame_parts / frame._marshal."""
     import ast
     out = []
-    for fname in ('frame.frame_parts', 'frame._marshal'):
-        fi = ctx.prog.function(fname)
+    for fi in (ctx.prog.function('frame.frame_parts'),
+               ctx.envelope_function()):
+        fname = fi.short
         for n in ast.walk(fi.node):
             if isinstance(n, ast.Call) and isinstance(n.func, ast.Attribute) \
                     and n.func.attr in ('pack', 'unpack', 'unpack_from') \
